@@ -50,11 +50,17 @@ def classify(exc, lab):
 
 
 def call(fn, lab, forced=True):
+    from . import codec
+
     try:
         v = fn()
+        n0 = codec.LAZY_SEEN[0]
         if forced:
             v = force(v)
-        return {"ok": True, "v": v}
+        out = {"ok": True, "v": v}
+        if codec.LAZY_SEEN[0] != n0:
+            out["lazy"] = True  # the result was (or contained) a one-shot iterator
+        return out
     except Exception as e:  # noqa
         return classify(e, lab)
 
